@@ -149,6 +149,29 @@ def _impl(tier, seed, search):
                     if G[i].shape != W[i].shape or not np.allclose(G[i], W[i], rtol=1e-12, atol=1e-12):
                         L.fail(f'per-value-element:{c}.{mn}', f'{c}.{mn} on {m} values: result {i} differs from the method applied to element {i}', dict(inp, method=mn), observed=repr(G[i])[:100], required=repr(W[i])[:100])
                         break
+    # == and != on sequences decide each pair exactly as the single-valued operator does — also for nearly equal values
+    for c in CL:
+        cls, one = CL[c]
+        base_vals = [np.array(one(), float) for _ in range(4)]
+        def nudge(v, eps):
+            if c in ('SO2', 'SE2', 'SO3', 'SE3'):
+                d_ = 2 if c in ('SO2', 'SE2') else 3
+                w = v.copy(); Rn = (inputs.r2(eps) if d_ == 2 else inputs.rodrigues(np.array([0.0, 0.0, 1.0]), eps)); w[:d_, :d_] = w[:d_, :d_] @ Rn; return w
+            if c == 'UnitQuaternion':
+                dq = np.r_[math.cos(eps / 2), math.sin(eps / 2), 0, 0]; return b.qqmul(v, dq)
+            w = v.copy(); w[0] += eps; return w
+        others = [base_vals[0].copy(), nudge(base_vals[1], 1e-8), nudge(base_vals[2], 1e-5), (-base_vals[3] if c == 'UnitQuaternion' else nudge(base_vals[3], 1e-11))]
+        X = cls([v for v in base_vals]); Y = cls([v for v in others])
+        xs = [cls(v) for v in base_vals]; ys = [cls(v) for v in others]
+        for opn, f in (('==', operator.eq), ('!=', operator.ne)):
+            for (A, As, B, Bs, tag) in ((X, xs, Y, ys, 'MxM'), (xs[1], [xs[1]] * 4, Y, ys, '1xM'), (X, xs, ys[1], [ys[1]] * 4, 'Mx1')):
+                L.count('eq-sensitive', key=(c, opn, tag))
+                try:
+                    got = list(f(A, B)); want = [bool(f(a_, b_)) for a_, b_ in zip(As, Bs)]
+                except Exception as e:
+                    L.fail(f'eq-sequence-raises:{c}:{opn}', f'{c} {opn} on sequences raised {type(e).__name__}', dict(cls=c, op=opn, shape=tag)); continue
+                if [bool(g_) for g_ in got] != want:
+                    L.fail(f'eq-sequence:{c}:{opn}', f'{c} {opn} {c} on sequences ({tag}) decides nearly equal values differently from the single-valued operator', dict(cls=c, op=opn, shape=tag), observed=[bool(g_) for g_ in got], required=want)
     # interpolation over a vector of s
     for c in ('SO2', 'SE2', 'SO3', 'SE3'):
         X, xs = mkobj(c, 1); svec = [0.0, 0.25, 0.7, 1.0]
